@@ -7,5 +7,11 @@ open Goflow.Conc.GetOrCreate
 def gen (_ : Nat) : List String :=
   (([2, 3].flatMap fun n => (plans n).map fun p => (n, p)).flatMap fun (n, p) =>
     ["tpl", "rate"].flatMap fun kind =>
-      ["race " ++ kind ++ " " ++ toString n ++ " " ++ ",".intercalate (p.map Ev.str), "expect res ok lost=[]"])
+      ["race " ++ kind ++ " " ++ toString n ++ " " ++ ",".intercalate (p.map Ev.str), "expect res ok lost=[]"]) ++
+  -- first contact with a datagram that is refused after it announced a template: worker 0 is parked a second time
+  -- after the publication of the exporter's template system, while the others announce theirs
+  (["S0,R0,S1,R1,R0", "S0,S1,R0,R1,R0", "S0,S1,R1,R0,R0", "S1,S0,R1,R0,R0", "S1,S0,R0,R1,R0", "S0,R0,R0,S1,R1", "S1,R1,S0,R0,R0"].flatMap fun p =>
+    ["race tplbad 2 " ++ p, "expect res ok lost=[]"]) ++
+  (["S0,R0,S1,S2,R1,R2,R0", "S0,S1,S2,R0,R1,R2,R0", "S1,S0,S2,R1,R0,R2,R0", "S0,S1,R0,R1,S2,R2,R0", "S2,S0,R0,S1,R2,R1,R0"].flatMap fun p =>
+    ["race tplbad 3 " ++ p, "expect res ok lost=[]"])
 end Goflow.Gen.C16
